@@ -3,13 +3,13 @@ C20, deepening round: additions to the reference model that do not belong in
 `Ref.lean` (which other properties import and which stays untouched).
 
 1. the *strict* grammar of a range reference `cell:cell` (Spec), against which
-   the lenient `rangeRefToCoordinates` of lib.go (`Ref.rangeRefToCoordinates`)
-   is characterised in `Lemmas/Ref7.lean`;
+   `rangeRefToCoordinates` of lib.go (`Ref.rangeRefToCoordinates`) is
+   characterised in `Lemmas/Ref7.lean` (since the repair: they coincide);
 2. the normalisation every family of cell-name taking APIs applies before it
    touches the worksheet ("lookup paths"), transcribed from cell.go, styles.go,
    vml.go, picture.go, merge.go.  A path maps the spelling the caller passed to
    the *key* under which the API stores or looks up the cell: coordinates, the
-   canonical reference, or — for comments — the raw spelling itself.
+   canonical reference, (comments too since the repair).
 
 Core Lean only (linked into the driver).
 -/
@@ -107,16 +107,19 @@ def pathLinkGet (s : List Char) : Option Key :=
       | .error _ => none
     | .error _ => none
 
-/-- path C-add (`AddComment` → `addComment`): validity by direct decode, the
-comment is stored with `Ref: opts.Comment.Cell`, the spelling *as passed*. -/
+/-- path C-add (`AddComment` → `addComment`): direct decode, the comment is stored
+under the canonical reference of the cell. -/
 def pathCommentAdd (s : List Char) : Option Key :=
   match cellNameToCoordinates s with
-  | .ok _ => some (.ref s)
+  | .ok (c, r) =>
+    match coordinatesToCellName c r false with
+    | .ok canon => some (.ref canon)
+    | .error _ => none
   | .error _ => none
 
-/-- path C-del (`DeleteComment`): `cmt.Ref != cell` — the stored reference is
-compared with the spelling *as passed*; no validation before the comparison. -/
-def pathCommentDel (s : List Char) : Option Key := some (.ref s)
+/-- path C-del (`DeleteComment`, on a sheet that has comments): direct decode,
+canonical re-encode, compared with the stored reference. -/
+def pathCommentDel (s : List Char) : Option Key := pathCommentAdd s
 
 /-- a grid position is the cell whose stored reference `c.R` is the canonical
 relative name (`prepareSheetXML` / `checkRow` fill `c.R` that way): both kinds of
